@@ -90,9 +90,12 @@ func (d *deepCopier) deepCopyIface(in, out reflect.Value) {
 	inElem := in.Elem()
 	switch inElem.Kind() {
 	case reflect.Ptr:
-		newVal := reflect.New(inElem.Type().Elem())
-		out.Set(newVal)
-		d.deepCopy(inElem.Elem(), newVal.Elem())
+		// copy through a settable pointer-typed value so the pointer
+		// memo is consulted (and populated): the pointee may be shared
+		// with other references, or part of a reference cycle.
+		newPtr := reflect.New(inElem.Type()).Elem()
+		d.deepCopyPtr(inElem, newPtr)
+		out.Set(newPtr)
 		return
 	case reflect.Struct:
 		newVal := reflect.New(inElem.Type())
@@ -103,8 +106,11 @@ func (d *deepCopier) deepCopyIface(in, out reflect.Value) {
 		if inElem.IsNil() {
 			return
 		}
-		out.Set(reflect.MakeMapWithSize(inElem.Type(), inElem.Len()))
-		d.deepCopy(inElem, out.Elem())
+		// copy through a settable map-typed value so the map memo is
+		// consulted (and populated): the map may contain itself.
+		newMap := reflect.New(inElem.Type()).Elem()
+		d.deepCopyMap(inElem, newMap)
+		out.Set(newMap)
 		return
 	case reflect.Slice:
 		if inElem.IsNil() {
